@@ -185,7 +185,7 @@ PROPS = {
  },
  "C03": {
   "modules": ["OsmoVerif.Props.C03"],
-  "min_theorems": 35,
+  "min_theorems": 50,
   "fingerprints": ["CL.*"],
   "engines": [{"name": "clmath", "kind": "pure", "n": {"quick": 40000, "thorough": 500000}, "shards": {"quick": 4, "thorough": 16}},
               {"name": "cl", "kind": "app", "n": {"quick": 1500, "thorough": 20000}, "shards": {"quick": 4, "thorough": 16}}],
@@ -193,9 +193,11 @@ PROPS = {
           "amount deltas, next-price functions and the four within-bucket step functions; cl: histories on one concentrated pool with swaps of both kinds/directions from 1 unit "
           "to draining over overlapping/nested/abutting/gapped positions; distinct = distinct op lines",
   "trusted_base": ["osmomath arithmetic as proved in C12", "tick conversions as proved in C14"],
-  "assumptions": ["PARTIAL: the whole-swap comparison with the exact curve (`swap_vs_exact_curve`) is proved conditionally on `StepOK` (non-negative liquidity in every visited bucket; "
-                  "for exact-out the target on the swap side of the current price) - facts that follow from the pool invariant of C07 but are not yet discharged inside C03; "
-                  "the bounded-rounding distance and there-and-back clauses are decided by the cl engine's exact rational walk on the real keeper",
+  "assumptions": ["whole-swap theorems (`swap_vs_exact_curve_reachable`, `swap_shortfall_bounded`, `there_and_back_no_profit`) hold for every state satisfying the C07 invariant, "
+                  "hence for every reachable state with tick spacing > 0 and spread factor in [0, 1/2] (`SpfOK`; covers every authorised spread factor); swaps run with the "
+                  "execution or the estimate price limit (a caller-supplied sqrt-price limit strictly inside is not covered by the unconditional forms)",
+                  "bounded rounding is stated against the exact curve between the ACTUAL start and end sqrt prices of every step; for exact-out the out side is capped by the request and "
+                  "only the in side is bounded; the cl engine's oracle additionally compares with the ideal for the amount (2*steps+4 units) on the real keeper",
                   "estimates leaving state untouched is structural in the model (pure function) and checked on the implementation by store digests"],
   "explanation": "theorems are proved THROUGH the regenerated operator lists (Gen.CL.ops_*): a changed rounding operator in the Go source changes the model and breaks the unfolding obligations",
  },
